@@ -95,6 +95,25 @@ def gen_capi_ops(rng, cfg, nops, invalid_rate):
     return ops
 
 
+def capi_validity(cfg, ops):
+    """the property's own list of reasons (C05), evaluated without the model: for each C API call whether
+    it must be accepted, the cursor advancing only over the calls that must be"""
+    cur, out = 0, []
+    for op in ops:
+        if op[0] != "capi":
+            out.append(None)
+            continue
+        _, total, _tag, G, D = op
+        ok = (len(G) == len(D) and len(G) > 0 and G[0] >= cur and D[0] == 0 and all(b > a for a, b in zip(D, D[1:]))
+              and all(b > a for a, b in zip(G, G[1:])) and D[-1] < total
+              and all((d2 - d1) <= (g2 - g1) for d1, d2, g1, g2 in zip(D, D[1:], G, G[1:]))
+              and not (cfg.cont and len(G) > 1))
+        if ok:
+            cur = G[-1] + (total - D[-1])
+        out.append(ok)
+    return out
+
+
 def run(res):
     common.use_impl()
     rng = res.rng
@@ -211,10 +230,20 @@ def run(res):
         if i < 1:
             res.sample(hist)
         prev_gi = 0
+        must = capi_validity(cfg, ops)
+        judged = True
         for j, (op, r, m) in enumerate(zip(ops, reports, mrep)):
             if op[0] != "capi":
                 continue
             res.count("capi_rc:%d" % r[0])
+            if judged and must[j] is False and r[0] == 0:
+                res.violation("c-invalid-call-accepted", "a C API call that starts before the cursor / has malformed index arrays "
+                              "returned success", dict(hist, call=j), "a non-zero return code and no effect", [r[0], "cursor", r[5]])
+                judged = False
+            elif judged and must[j] is True and r[0] != 0:
+                res.violation("c-valid-call-rejected", "a well-formed C API call at or after the cursor was refused",
+                              dict(hist, call=j), 0, r[0])
+                judged = False
             if r[0] != 0:
                 nrej[0] += 1
                 if r[5] != prev_gi or "bad" in hashes:
